@@ -132,7 +132,8 @@ taskreport {report_id} "{report_id}" {{
     try:
         with os.fdopen(temp_fd, "w") as f:
             # Include original file
-            f.write(f"# Original file: {tjp_path}\n")
+            # (escaped: a name with a line break or undecodable bytes must stay inside the comment)
+            f.write(f"# Original file: {ascii(str(tjp_path))}\n")
             f.write("# Auto-report added by plan CLI\n\n")
             f.write(original_content)
             f.write("\n\n")
